@@ -701,11 +701,11 @@ run_pipeline = Fn(C, 'run_pipeline', ret='r',
         'before-call:run_single_program': 'RAW: let ghost nid = k.next_id;',
         'before-text:let mut start_failed = false;': 'RAW: let ghost __forks0 = k.forks.len(); let tracked mut wl = new_waitlog();',
         # C02 / C03: the status of a pipeline that was waited for is the one the wait reports, captured or not
-        'before-text:if start_failed && cmd_result.status == 0': 'LABEL:C02+C03+C11.pipeline.status_is_the_one_the_wait_reported_also_when_captured: '
-            'assert(wl.st.is_some() ==> cmd_result.status as int == wl.st.unwrap());',
         # C02: the shell resumes only after all stages have terminated -- every pipeline with a started foreground stage is waited for, captured or not
         'before-text:// a pipeline with a stage that could not be started has failed': 'LABEL:C02+C11.pipeline.started_foreground_stages_are_waited_for_also_when_captured: '
-            'assert(fg_pids@.len() > 0 ==> wl.st.is_some());',
+            'assert(fg_pids@.len() > 0 ==> wl.st.is_some()); ;;; '
+            # C02 / C03: the status of a pipeline that was waited for is the one the wait reports, captured or not
+            'LABEL:C02+C03+C11.pipeline.status_is_the_one_the_wait_reported_also_when_captured: assert(wl.st.is_some() ==> cmd_result.status as int == wl.st.unwrap());',
         # C08: descriptor exhaustion makes the pipeline fail with a non-zero status
         'before-text:(term_given, cmd_result)': 'LABEL:C08.pipeline.a_stage_that_could_not_be_started_gives_a_nonzero_status: '
             'assert(!spec_single_builtin(*cl) && k.forks.len() < __forks0 + length ==> cmd_result.status != 0);',
